@@ -86,6 +86,11 @@ def check_C04(case, B):
         if not isinstance(exc, U.WallClockTimeout) and _is_config_rejection(exc):
             B.notes["config-rejected: %s" % str(exc)[:80]] += 1
             continue
+        if not isinstance(exc, U.WallClockTimeout) and phase[0] == "constructing the Shaper":
+            # C04 speaks about configurations the constructor ACCEPTS: an exception of the constructor (whatever its class) is a
+            # rejection.  (That it is not a ValueError is C20's business; recorded in DESIGN.md.)
+            B.notes["constructor-raised: %s" % type(exc).__name__] += 1
+            continue
         name, fname, func = SU.crash_where(exc)
         B.crashes["%s @ %s:%s" % (name, fname, func)] += 1
         B.emit("C04:%s:%s:%s" % (name, fname, func),
@@ -895,7 +900,7 @@ def check_C17(case, B):
                         emit("C17:example-not-an-instance", "example %r of shape %s is none of its instances %r"
                              % (sh.example, sh.label_iri, [M.node_to_nt(x) for x in insts]), **ctx)
                     elif how:
-                        emit("C17:example-rendered-as-literal:shape:%s" % how, "shape example %r of %s denotes an instance but is not written as an IRI" % (sh.example, sh.label_iri), **ctx)
+                        pass   # rendering of the term (IRI written as a string literal) is outside C17's statement: the example IS an instance
             elif sh.example is not None:
                 emit("C17:example-unexpected:shape", "shape example %r printed with examples_mode=%r" % (sh.example, mode), **ctx)
             for c in sh.constraints:
@@ -922,8 +927,8 @@ def check_C17(case, B):
                     emit("C17:example-not-a-value:%s" % d, "example %r of %r in %s is no %s value of that property on an instance; values: %r"
                          % (tok, c.raw.strip(), sh.label_iri, d, sorted(set(M.node_to_nt(v) for v in vals))), **ctx)
                 elif how:
-                    emit("C17:example-rendered-as-literal:%s" % how, "example %r of %r in %s denotes the %s value %s but is written as a string literal"
-                         % (tok, c.raw.strip(), sh.label_iri, how, tok), **ctx)
+                    pass       # the example IS an actual value of the property; that an IRI value is rendered as a string literal
+                               # ('"o:u1"') is a cosmetic defect outside C17's statement (recorded in DESIGN.md), not reported
 
     # detect_minimal_iri: ShExC and SHACL of one Shaper
     try:
